@@ -129,6 +129,9 @@ def mech_model(case):
     if case['model'] == 'toy1':
         return ToyModel(2, 1), {'o0': 'A'}
     if case['model'] == 'toy2':
+        if case.get('map_order') == 'reversed':
+            # the same mapping, written down in the other order
+            return ToyModel(2, 2), {'o1': 'B', 'o0': 'A'}
         return ToyModel(2, 2), {'o0': 'A', 'o1': 'B'}
     m = chi.library.ModelLibrary().one_compartment_pk_model()
     m.set_administration('central', direct=case.get('direct', True))
@@ -298,6 +301,46 @@ def w_case(case):
             viol.append({'sub': 'grad', 'message': 'sensitivities differ from the '
                          'hand-assembled posterior (%s)' % lab, 'expected': gb,
                          'observed': ga, 'behaviour': 'grad'})
+    # histories of fix_parameters calls: the posterior handed out after every call
+    # is kept, and all of them are evaluated at the end against the posterior
+    # assembled by hand for the fixed values in force when each was handed out
+    if case.get('refix'):
+        full = bottom_names(case)
+        kept = []
+        net = dict(case.get('fix') or [])
+        tgt = targets[0]
+        for step in case['refix']:
+            c.fix_parameters({full[i]: v for i, v in step})
+            for i, v in step:
+                if v is None:
+                    net.pop(i, None)
+                else:
+                    net[i] = v
+            c.set_log_prior(build_prior(c.get_n_parameters()))
+            hc = dict(case)
+            hc['fix'] = sorted(net.items())
+            kept.append((dict(net), c.get_log_posterior(tgt),
+                         hand_posterior(hc, tgt)))
+            ntr += 2
+        for k, (net_k, post, hand) in enumerate(kept):
+            n = hand.n_parameters()
+            x = np.array(vals.reals('c14.xr', n, 0.4, 1.6, case['seed']))
+            if post.n_parameters() != n:
+                viol.append({'sub': 'refix_count', 'message': 'posterior handed out '
+                             'after fix_parameters call %d has the wrong number of '
+                             'parameters (%s)' % (k, lab), 'expected': n,
+                             'observed': post.n_parameters(),
+                             'behaviour': 'refix'})
+                continue
+            a, b = post(x), hand(x)
+            ntr += 2
+            if not tol.close(a, b, 1e-7, 1e-9):
+                viol.append({'sub': 'refix', 'message': 'posterior handed out after '
+                             'fix_parameters call %d (fixed %s) differs from the '
+                             'hand-assembled one once later calls were made (%s)'
+                             % (k, net_k, lab), 'expected': b, 'observed': a,
+                             'behaviour': 'refix'})
+            outcome.append(a)
     # regimens reported per individual
     if case['dosing']:
         regs = c.get_dosing_regimens()
@@ -319,7 +362,7 @@ def w_case(case):
 
 
 WORKERS = {'individual': w_case, 'hierarchical': w_case, 'dosing': w_case,
-           'metamorphic': w_case}
+           'metamorphic': w_case, 'refix': w_case}
 
 
 # ------------------------------------------------------------ cases
@@ -340,7 +383,12 @@ def individuals(n, two_obs, dosing, with_cov, seed):
             vb = vals.reals('c14.vb%d' % i, ntb, 0.8, 6.0, seed) if ntb else []
             obs['B'] = list(zip(tb, vb))
         ind = {'id': [3, 1, 2][i], 'obs': obs}
-        if dosing:
+        if dosing == 'infusion_first':
+            # an infusion row followed by a row without duration (bolus), and back
+            ind['doses'] = [[(0.3, 2.0, 0.4), (1.2, 1.0, None)],
+                            [(0.1, 1.5, None), (0.6, 3.0, 0.8), (1.4, 0.5, None)],
+                            [(0.0, 1.0, 0.3)]][i % 3]
+        elif dosing:
             ind['doses'] = [[(0.0, 2.0, 0.5)], [(0.5, 1.0, None), (1.5, 3.0, 0.25)],
                             []][i % 3]
         if with_cov:
@@ -415,6 +463,47 @@ def build(tier, seed):
                         if not direct:
                             c['pop'] = None
                         dose_cases.append(c)
+    # the mapping dictionary written in the other order (two outputs)
+    for n in (1, 2, 3):
+        inds = individuals(n, True, False, False, seed)
+        for (bo, it) in orders(n, 'quick'):
+            ind_cases.append({
+                'model': 'toy2', 'inds': inds, 'id_type': 'int', 'block_order': bo,
+                'interleave': it, 'dosing': False, 'extras': {}, 'fix': None,
+                'seed': seed, 'map_order': 'reversed'})
+    hier_cases.append({
+        'model': 'toy2', 'inds': individuals(3, True, False, False, seed),
+        'id_type': 'int', 'block_order': [1, 2, 0], 'interleave': 'zipped',
+        'dosing': False, 'extras': {}, 'pop': pops['toy2'][0], 'cov_names': [],
+        'fix': None, 'pop_first': True, 'seed': seed, 'map_order': 'reversed'})
+    # dose rows with and without duration in both orders, every interleaving
+    for n in (2, 3):
+        inds = individuals(n, False, 'infusion_first', False, seed)
+        for (bo, it) in orders(n, 'thorough'):
+            dose_cases.append({
+                'model': 'lib1', 'inds': inds, 'id_type': 'int', 'block_order': bo,
+                'interleave': it, 'dosing': True,
+                'extras': {'duration_column': True}, 'pop': None, 'direct': True,
+                'seed': seed})
+    # fix_parameters histories with every handed-out posterior kept
+    refix = []
+    steps = {
+        'toy1': [[[1, 0.6]], [[1, 1.1]], [[1, None], [0, 0.9]], [[2, 0.4]],
+                 [[0, 1.2], [2, None]]],
+        'lib1': [[[2, 0.2]], [[2, 0.6]], [[2, 1.1]], [[1, 0.9], [2, None]],
+                 [[3, 0.3]]]}
+    for model in ('toy1', 'lib1'):
+        inds = individuals(2, False, model == 'lib1', False, seed)
+        depth = 2 if tier == 'quick' else 3
+        for r in range(2, depth + 1):
+            for seq in itertools.permutations(steps[model], r):
+                refix.append({
+                    'model': model, 'inds': inds, 'id_type': 'int',
+                    'block_order': [0, 1], 'interleave': 'grouped',
+                    'dosing': model == 'lib1',
+                    'extras': {'duration_column': True}, 'pop': None,
+                    'direct': True, 'fix': None, 'seed': seed,
+                    'refix': [list(map(list, st)) for st in seq]})
     # metamorphic extras: unrelated observables, NaN rows, extra columns, keys
     for extras in ({'unrelated_obs': True}, {'nan_rows': True}, {'extra_col': True},
                    {'custom_keys': True},
@@ -443,6 +532,10 @@ def build(tier, seed):
                  'population models'),
             Part('dosing', dose_cases, w_case,
                  'SBML model with per-individual dose rows (RefSimulation)'),
+            Part('refix', refix, w_case,
+                 'sequences of controller.fix_parameters calls (re-fix, release, '
+                 'other parameter); every posterior handed out on the way is kept '
+                 'and evaluated at the end'),
             Part('metamorphic', meta, w_case,
                  'unrelated observables / NaN rows / extra columns / custom keys'),
         ],
